@@ -237,8 +237,13 @@ def canon_state(box, pool, ret):
     ids = {w._id: w.idx for w in box.workers}
     ppw = tuple(sorted((ids[k], tuple(v)) for k, v in pool._pending_per_worker.items()))
     return (pool._pending, ppw, tuple(pool._retries), tuple(sorted(ids[c] for c in pool._closed)), pool._depleted,
-            tuple(sorted(ret)), tuple(sorted(box.finished_cb)), box.consumed, ws, box.deaths_left,
+            tuple(sorted(ret, key=_okey)), tuple(sorted(box.finished_cb, key=_okey)), box.consumed, ws, box.deaths_left,
             tuple(ids[k] for k in pool._queues.keys()), tuple(sorted(getattr(box, 'efn_state', ()))))
+
+
+def _okey(v):
+    """Total order also over foreign values (None, tuples) a broken pool might hand back."""
+    return (0, v) if isinstance(v, int) and not isinstance(v, bool) else (1, repr(v))
 
 
 def _msgkey(m):
@@ -343,9 +348,9 @@ def run_once(box, prefix, seen, stats, perms=False):
         out = None
         try:
             r = pool.run(*sources, **kwargs)
-            out = Outcome('return', results=tuple(sorted(r)) if r is not None else None)
+            out = Outcome('return', results=tuple(sorted(r, key=_okey)) if r is not None else None)
         except P.PoolError as e:
-            out = Outcome('PoolError', partial=tuple(sorted(e.partial_results)) if e.partial_results is not None else None)
+            out = Outcome('PoolError', partial=tuple(sorted(e.partial_results, key=_okey)) if e.partial_results is not None else None)
         except Abort:
             return None, box.trace
         except Deadlock as e:
@@ -430,9 +435,9 @@ def judge(box, out):
         tag += '/enqueue_fn-raising-once'
     results = None
     if out.kind == 'return':
-        results = list(out.results) if out.results is not None else sorted(box.finished_cb)
+        results = list(out.results) if out.results is not None else sorted(box.finished_cb, key=_okey)
     elif out.kind == 'PoolError':
-        results = list(out.partial) if out.partial is not None else sorted(box.finished_cb)
+        results = list(out.partial) if out.partial is not None else sorted(box.finished_cb, key=_okey)
     if out.kind == 'internal-error':
         v.append(('C07', 'POOLX/internal-error/%s/%s' % (out.type, tag), 'return or PoolError'))
         if out.type == 'IndexError':
@@ -471,7 +476,7 @@ def judge(box, out):
         alive = [w.idx for w in box.workers if w.alive]
         if alive:
             v.append(('C08', 'POOLX/PoolError-with-live-worker/%s' % tag, 'PoolError only when every worker is dead or closed'))
-        elif results is not None and cfg.get('return_results', True) and not cfg.get('poison') and sorted(results) == genuine and inputs:
+        elif results is not None and cfg.get('return_results', True) and not cfg.get('poison') and sorted(results, key=repr) == sorted(genuine, key=repr) and inputs:
             # every input has its result: the workers died after the input was finished, not before
             v.append(('C08', 'POOLX/PoolError-although-every-input-has-its-result/%s' % tag, 'PoolError only if the workers died before the input was finished'))
     if out.kind == 'return' and out.results is None and cfg.get('return_results', True) and cfg['workers'] > 0:
